@@ -95,6 +95,22 @@ Theorem validator_dot_1d_spec :
 Proof. exact validator_dot_1d_spec_proof. Qed.
 Print Assumptions validator_dot_1d_spec.
 
+(* matmul rejects 0-d operands like numpy.matmul (9e6cc99), before it delegates to dot *)
+Theorem validator_matmul_0d_spec :
+  forall nda ndb : Z,
+    (nda <> 0 /\ ndb <> 0 -> v_matmul_0d_check nda ndb = Ok VNone) /\
+    (nda = 0 \/ ndb = 0 -> v_matmul_0d_check nda ndb = Raise ValueError).
+Proof. exact validator_matmul_0d_spec_proof. Qed.
+Print Assumptions validator_matmul_0d_spec.
+
+(* einsum: an output subscript that occurs cnt <> 1 times in the output is rejected (a749d30) *)
+Theorem validator_einsum_out_count_spec :
+  forall cnt : Z,
+    (cnt = 1 -> v_einsum_out_count_check cnt = Ok VNone) /\
+    (cnt <> 1 -> v_einsum_out_count_check cnt = Raise ValueError).
+Proof. exact validator_einsum_out_count_spec_proof. Qed.
+Print Assumptions validator_einsum_out_count_spec.
+
 (* tensordot's zero-size shortcut fires iff the CONTRACTED extent is 0: zero-length FREE axes reach
    the kernels, whose own loop tests must (and, since the repair of D3, do) handle them *)
 Theorem tensordot_shortcut_spec :
@@ -229,7 +245,7 @@ Print Assumptions algD_terminates_partial.
 
 (* ------------------------------------------------------------------ sequencing: validators before kernels *)
 (* For the call skeletons extracted from /repo on this run (Gen/S_validators.v: COO.transpose, COO.reshape,
-   broadcast_to, tensordot, dot, COO getitem, COO.__init__): on every run that ends in a rejection — a
+   broadcast_to, tensordot, dot, matmul, _parse_einsum_input, COO getitem, GCXS getitem, COO.__init__): on every run that ends in a rejection — a
    validator call that rejects or a `raise` statement — no kernel / constructor call has executed. *)
 Theorem rejection_precedes_kernels :
   forall name p t, In (name, p) site_programs -> exec p t Raised -> no_kernel t.
